@@ -292,6 +292,68 @@ def startmethod_kwargs_cases(ctx):
             ctx.fail('kwargs-not-forwarded', 'under start method %s the per-element calls saw %s, expected %s' % (method, r['outputs'][:4], want[:4]), case)
 
 
+_IDENTITY_LOG = []
+
+
+def _f_identity_kw(x, *, sink, token, lock, table):
+    with lock:
+        sink.append(x)
+        table[x] = len(sink)
+    _IDENTITY_LOG.append((id(sink), id(token), id(lock), id(table)))
+    return x * 2
+
+
+def _identity_run(skipNone, n, grow):
+    """runs in a forked child: in-process stream whose keyword values are the caller's own objects"""
+    import threading
+    import generatorpipeline as gp
+    out = {}
+    for which in ('plain', 'stream'):
+        del _IDENTITY_LOG[:]
+        sink, token, lock, table = [], object(), threading.Lock(), {}
+        kw = dict(sink=sink, token=token, lock=lock, table=table)
+        seen_by_caller = []
+        try:
+            if which == 'plain':
+                res = []
+                for el in iter(range(n)):
+                    res.append(_f_identity_kw(el, **kw))
+                    seen_by_caller.append(len(sink))
+                    if grow:
+                        sink.append('caller')
+            else:
+                g = gp.pipeline(0, skipNone=skipNone)(_f_identity_kw)
+                res = []
+                for v in g(iter(range(n)), **kw):
+                    res.append(v)
+                    seen_by_caller.append(len(sink))
+                    if grow:
+                        sink.append('caller')
+            ids = set(_IDENTITY_LOG)
+            out[which] = dict(results=res, sink=list(sink), table=dict(table), seen=seen_by_caller,
+                              same_objects=(ids == {(id(sink), id(token), id(lock), id(table))}) if n else True)
+        except Exception as e:  # noqa
+            out[which] = dict(error='%s: %s' % (type(e).__name__, e))
+    return out
+
+
+def identity_kwargs_cases(ctx):
+    """in-process, 'passed unchanged' is literal: each per-element call receives the caller's own keyword objects (a list it fills, a lock, a token), as the plain loop does"""
+    rng = ctx.rng
+    for _ in range(3):
+        skipNone, n, grow = rng.choice([True, False]), rng.choice([1, 3, 6]), rng.choice([True, False])
+        case = dict(identity_kwargs=True, nworkers=0, skipNone=skipNone, n=n, caller_appends_between_outputs=grow)
+        ctx.case(('identity-kwargs', skipNone, n, grow), True, sample=case)
+        ctx.count('identity_kwargs')
+        st, r = pipelib.isolated(_identity_run, (skipNone, n, grow), timeout=60)
+        if st != 'ok':
+            ctx.fail('kwargs-identity-run-fails', 'in-process stream with the caller\'s objects as keyword values: %s %s' % (st, str(r)[-300:]), case)
+            continue
+        if r['stream'] != r['plain']:
+            ctx.fail('kwargs-not-the-callers-objects', 'in-process stream with a list, a token, a lock and a dict as keyword values: %r; the plain loop over the undecorated function: %r'
+                     % (r['stream'], r['plain']), case)
+
+
 def kwargs_streams(ctx):
     rng = ctx.rng
     cases = []
@@ -384,6 +446,7 @@ def check(ctx):
     interleaved_cases(ctx)
     signature_cases(ctx)
     startmethod_kwargs_cases(ctx)
+    identity_kwargs_cases(ctx)
 
 
 def replay(ctx, data):
@@ -394,6 +457,8 @@ def replay(ctx, data):
         signature_cases(ctx)
     elif 'start_method' in case:
         startmethod_kwargs_cases(ctx)
+    elif case.get('identity_kwargs'):
+        identity_kwargs_cases(ctx)
     elif 'arg_kind' in case:
         element_cases(ctx)
     else:
